@@ -323,6 +323,7 @@ func (r *Run) Finish() int {
 	samples := r.samples
 	if len(samples) == 0 {
 		samples = []any{}
+		r.inconcl = append(r.inconcl, "no sample case was recorded")
 	}
 	cov["samples"] = samples
 	cov["events"] = r.counters
